@@ -8,13 +8,32 @@ ASSUMPTIONS = [
     "the theorems are about coq/Model/Tree.v; they reach the real code through the per-run correspondence (dumped real "
     "trees, first and second format, cell parameter loop, importance trees) and the per-input validation of the parser "
     "hypothesis (flatten(parsed tree) == text read, up to the comment lines parse_input moves to the next input)",
+    "C01_split_agrees (coq/Properties/C01Spec.v) holds for files satisfying SpecWire.wf_file (notes/Spec.md: ends in LF, "
+    "no '#' in columns 1-5, no '& $', no comment-only block, ...); outside it the reader and the rules differ on the "
+    "witnesses recorded as F-C01-spec-* findings; the reader side of the theorem is the model coq/Model/Lines.v, tied to "
+    "the real read_input_syntax by the instance check of harness/spec_tie.py on every well-formed generated file",
 ]
 
 
 def run(ctx):
     ctx, tb, dist = R.run_rt(ctx, "C01", 400, 6000, with_edits=False)
-    return ctx.finish(tb, ASSUMPTIONS, "generated G_core problems (cells with CSG geometry, materials, surfaces of many mnemonics, data cards incl. data-block cell modifiers, lattice fill arrays, shortcuts, comments, message block; plain and wild layouts incl. tabs, '&', mixed case, CRLF; comment lines at block ends, text after the data block, junk beyond the column limit; 80 and 128 columns), read and written unedited; distinct = distinct input text", extra={"input_distribution": dist})
+    # the oracle's reading of a file (harness/spec.py) is itself tied to the Coq rules Spec/Cards.v, and the modelled line
+    # reader is PROVED to yield the cards of those rules (Properties/C01Spec.v: C01_split_agrees, 9 statements); their
+    # obligations count for C01 and a mismatch between spec.py / the real reader / the rules is a broken obligation of C01
+    import spec_tie
+    tie = spec_tie.run(ctx)
+    tb = tb + [
+        "coq/Spec/Cards.v (MCNP's line/card rules S1-S9, DESIGN 3.1) is a transcription of the manual by this framework; "
+        "harness/spec_tie.py compares it with harness/spec.py and the real read_input_syntax on generated files (search, not proof)",
+    ]
+    return ctx.finish(tb, ASSUMPTIONS, "generated G_core problems (cells with CSG geometry, materials, surfaces of many mnemonics, data cards incl. data-block cell modifiers, lattice fill arrays, shortcuts, comments, message block; plain and wild layouts incl. tabs, '&', mixed case, CRLF; comment lines at block ends, text after the data block, junk beyond the column limit; 80 and 128 columns), read and written unedited; distinct = distinct input text", extra={"input_distribution": dist, "spec_tie": tie})
 
 
 def replay(ctx, path):
+    import json
+    with open(path) as fh:
+        c = json.load(fh)
+    if (c.get("case") or {}).get("kind") == "reader-differs-from-rules":      # a replay of harness/spec_tie.py
+        import spec_tie
+        return spec_tie.replay(ctx, path)
     return R.replay_rt(ctx, "C01", path)
